@@ -483,6 +483,16 @@ func init() {
 			}
 			return -1
 		},
+		cometPath + ".vFSReadAll": func(fr *frame, a []value) value {
+			if n := FS.files[a[0].(string)]; n != nil {
+				return append([]value(nil), n.data...)
+			}
+			return []value(nil)
+		},
+		cometPath + ".vFSWriteAll": func(fr *frame, a []value) value {
+			FS.files[a[0].(string)] = &fsNode{data: append([]value(nil), a[1].([]value)...)}
+			return nil
+		},
 		cometPath + ".vFSWrite": func(fr *frame, a []value) value {
 			n := &fsNode{}
 			for _, b := range a[1].([]value) {
